@@ -5,9 +5,10 @@
  "enforce": ["heapifyup"],
  "replace": [],
  "annotate": ["datastruct/ptrheap.c"],
- "defines": ["VERIF_HALLOC", "HP_TARGET_PTRHEAP", "HP_MAXN=3"],
+ "defines": ["VERIF_HALLOC", "HP_TARGET_PTRHEAP", "HP_MAXN=7"],
  "thorough_defines": ["HP_MAXN=15"],
- "matrix": {"HP_MODEL": [1]},
+ "matrix": {"HP_MODEL": [1, 2]},
+ "loop_contracts": false,
  "unwind": 9, "thorough_unwind": 17,
  "bounded": true, "bound": "heaps with <= 7 elements (quick) / <= 15 (thorough); all loops fully unwound",
  "timeout": 300,
@@ -20,10 +21,10 @@
 void
 h_heapifyup(void)
 {
-	HP_MK_LIST(L, n);
+	IN(int, use_rc);
+	HP_MK_LIST(L, n, use_rc);
 	HP_MK_COOKIE(ck);
 	IN(size_t, i);
-	IN(int, use_rc);
 	IN(size_t, gsel);
 	__CPROVER_assume(gsel < HP_MAXN);
 	g_hp_ptr = R[gsel];
